@@ -14,6 +14,9 @@ DRIVER = os.path.join(LEAN, ".lake", "build", "bin", "pvdriver")
 NCPU = min(16, os.cpu_count() or 4)
 
 
+# result values nest as deep as the parse recursed (the deep-recovery family: a few hundred levels)
+sys.setrecursionlimit(20000)
+
 def goenv(modmod=False):
     e = dict(os.environ)
     e["GOPROXY"] = "off"
